@@ -28,7 +28,12 @@ var loopTable = map[string][]string{
 	"(*constWithPrecision).get": {"precision divided by 16 per iteration", "precision halved per iteration"},
 	"(Condition).String":        {"one set bit of r is cleared per iteration (closed 12-bit set, C02.R1)"},
 	"(*Context).Sqrt":           {"p = min(2p-2, maxp) strictly increases from 3 to maxp; the exit does not depend on any wrapper result"},
-	"(*Context).Cbrt":           {"range reduction: z multiplied by 8 per iteration; context derives from BaseContext (fixed traps) — DESIGN C04.R4", "range reduction: z divided by 8 per iteration; context derives from BaseContext (fixed traps) — DESIGN C04.R4"},
+}
+
+// progressNeedsBaseCtx: functions whose error-checked, uncapped loops make progress only under the
+// package-wide exponent range.
+var progressNeedsBaseCtx = map[string]string{
+	"(*Context).Cbrt": "its exit needs the operand scaled by 8 (or 1/8) to reach [1/8, 1], which takes non-saturating arithmetic",
 }
 
 func ruleLoopsBounded(w *World, r *RuleResult) {
@@ -72,6 +77,17 @@ func ruleLoopsBounded(w *World, r *RuleResult) {
 				continue
 			}
 			if ok, why := w.errorCheckedCycle(f, h, body); ok {
+				if strings.HasPrefix(why, "ed.Err()") {
+					// no iteration cap: besides stopping on errors the loop must make progress. For the scaling
+					// loops tabled here that means arithmetic that cannot saturate (underflow to zero, overflow):
+					// their context has to be the package-wide one, not the caller's.
+					if reason := progressNeedsBaseCtx[name]; reason != "" && decimalDriven && !w.loopCtxFromBase(f, body) {
+						r.bad(key, pos, "the loop stops on errors, but "+reason+": under the caller's exponent limits the scaled value can underflow to zero (or overflow) without any error when the condition is not trapped, and then never reaches the exit")
+						continue
+					}
+					r.ok(key, pos, "iteration loop: "+why+"; beyond that its termination rests on numeric convergence, which is not decided here (necessary conditions: C12.R5 half-even working context)", true)
+					continue
+				}
 				r.ok(key, pos, "iteration loop: "+why+" (loop.done caps the iteration count)", true)
 				continue
 			}
@@ -302,6 +318,9 @@ func (w *World) loopCtxFromBase(f *ssa.Function, body map[*ssa.BasicBlock]bool) 
 			}
 			return true
 		})
+		if ci := w.ctxCtor(c.Common().Args[0]); ci != nil && ci.fromBaseContext() {
+			ok = true
+		}
 		// BaseContext itself (exact arithmetic, the package's fixed traps)
 		if g, isG := basePtr(c.Common().Args[0]).(*ssa.Global); isG && g.Name() == "BaseContext" {
 			ok = true
@@ -678,6 +697,10 @@ func (w *World) formAtReturns(f *ssa.Function, sel func(*ssa.Return) bool, okVal
 					cur = set{}
 					if k, ok := st.Val.(*ssa.Const); ok {
 						cur[ci(k)] = true
+					} else if vals, ok := w.constResultsOf(st.Val); ok {
+						for _, v := range vals {
+							cur[v] = true
+						}
 					} else {
 						cur[-2] = true
 					}
@@ -710,6 +733,10 @@ func (w *World) formAtReturns(f *ssa.Function, sel func(*ssa.Return) bool, okVal
 				cur = set{}
 				if k, ok := st.Val.(*ssa.Const); ok {
 					cur[ci(k)] = true
+				} else if vals, ok := w.constResultsOf(st.Val); ok {
+					for _, v := range vals {
+						cur[v] = true
+					}
 				} else {
 					cur[-2] = true
 				}
@@ -755,4 +782,37 @@ func (w *World) zeroExcludedAt(f *ssa.Function, h *ssa.BasicBlock) bool {
 		}
 	}
 	return false
+}
+
+// constResultsOf: v is result #i of a call to a function of the package all of
+// whose returns deliver a constant there; returns those constants.
+func (w *World) constResultsOf(v ssa.Value) ([]int64, bool) {
+	ex, ok := v.(*ssa.Extract)
+	if !ok {
+		return nil, false
+	}
+	call, ok := ex.Tuple.(*ssa.Call)
+	if !ok {
+		return nil, false
+	}
+	g := callee(call)
+	if g == nil || !w.inPkg(g) || len(g.Blocks) == 0 {
+		return nil, false
+	}
+	var out []int64
+	for _, b := range g.Blocks {
+		rt, isRet := b.Instrs[len(b.Instrs)-1].(*ssa.Return)
+		if !isRet {
+			continue
+		}
+		if ex.Index >= len(rt.Results) {
+			return nil, false
+		}
+		k, isK := rt.Results[ex.Index].(*ssa.Const)
+		if !isK || k.Value == nil {
+			return nil, false
+		}
+		out = append(out, ci(k))
+	}
+	return out, len(out) > 0
 }
